@@ -88,19 +88,16 @@ theorem exOr_logicModel : LogicModel (exOr : Model (Ext K)) (exOr : Model (Ext K
     simp [varsOf, varsOfList] at hy
     rcases hy with rfl | rfl; exacts [sa, sb]
   refine ⟨⟨by intro y hy; simp [exOr, varsOf] at hy; subst hy; exact sa, by simp [FinE, exOr, finiteLits],
-    fun ρ _ => by simp [exOr, NC], fun ρ _ => ⟨ρ "a", by simp [exOr, eval]⟩⟩, ?_⟩
+    fun ρ _ => by simp [exOr, NC]⟩, ?_⟩
   intro c hc
   simp only [exOr, List.mem_singleton] at hc
   subst hc
-  refine ⟨⟨hvars, by simp [FinE, exOrC, finiteLits, finiteLitsL], ?_, ?_⟩,
-    ⟨by simp [exOrC, varsOf], by simp [FinE, exOrC, finiteLits, isFin], fun ρ _ => by simp [exOrC, NC],
-      fun ρ _ => ⟨1, by simp [exOrC, eval]⟩⟩⟩
+  refine ⟨⟨hvars, by simp [FinE, exOrC, finiteLits, finiteLitsL], ?_⟩,
+    ⟨by simp [exOrC, varsOf], by simp [FinE, exOrC, finiteLits, isFin], fun ρ _ => by simp [exOrC, NC]⟩⟩
   · have hdef : DefOn (exOr : Model (Ext K)).domain (.or [.var "a", .var "b"]) := fun ρ _ =>
       ⟨_, eval_or_of (vs := [ρ "a", ρ "b"]) (by simp [evalList, eval])⟩
     exact NCon.ofLO (loOn_of_operandsOK hnd
       (by simp [exOrC, operandsOK, operandsOKList, isLogicValue, isBoolVar, domainType, exOr]) hvars) hdef
-  · intro ρ _
-    exact ⟨_, eval_or_of (vs := [ρ "a", ρ "b"]) (by simp [evalList, eval])⟩
 
 theorem exOr_domRel : DomRel (exOr : Model (Ext K)) (exOr : Model (Ext K)).domain :=
   ⟨by simp [exOr], fun _ h => h, fun ρ h => ((srcFeasible_iff _ ρ).mp h).2, fun dv hdv hu => ⟨dv, hdv, rfl, hu⟩⟩
